@@ -13,6 +13,8 @@ import (
 	"runtime"
 	"sort"
 	"sync"
+
+	"github.com/deepteams/webp/internal/verifhook"
 )
 
 // numPredictors is the number of VP8L spatial predictors to evaluate (0-13).
@@ -395,6 +397,7 @@ func ResidualImage(argb []uint32, width, height, bits, quality int, residualsBuf
 	if numTiles >= 16 {
 		// Parallel predictor selection: partition tile rows across goroutines.
 		numWorkers := runtime.GOMAXPROCS(0)
+		numWorkers = verifhook.Workers(verifhook.SiteLosslessPredictor, numWorkers)
 		if numWorkers > tileYSize {
 			numWorkers = tileYSize
 		}
@@ -407,6 +410,7 @@ func ResidualImage(argb []uint32, width, height, bits, quality int, residualsBuf
 			if tyEnd > tileYSize {
 				tyEnd = tileYSize
 			}
+			verifhook.Range(verifhook.SiteLosslessPredictor, tyStart, tyEnd)
 			go func(tyStart, tyEnd int) {
 				defer wg.Done()
 				for ty := tyStart; ty < tyEnd; ty++ {
@@ -725,6 +729,7 @@ func ColorSpaceTransform(argb []uint32, width, height, bits, quality int) []uint
 		// Parallel cross-color transform: tiles don't overlap, so both
 		// selection and application can run independently per tile.
 		numWorkers := runtime.GOMAXPROCS(0)
+		numWorkers = verifhook.Workers(verifhook.SiteLosslessCrossColor, numWorkers)
 		if numWorkers > tileYSize {
 			numWorkers = tileYSize
 		}
@@ -737,6 +742,7 @@ func ColorSpaceTransform(argb []uint32, width, height, bits, quality int) []uint
 			if tyEnd > tileYSize {
 				tyEnd = tileYSize
 			}
+			verifhook.Range(verifhook.SiteLosslessCrossColor, tyStart, tyEnd)
 			go func(tyStart, tyEnd int) {
 				defer wg.Done()
 				scratch := make([]uint8, 5*maxTilePixels)
